@@ -8,6 +8,7 @@ model functions of `Model/Dominance.lean`, for all inputs.  Every property theor
 `paretoCompare` / `epsCompare` (C01, and through them C02, C03, C04, C09) is therefore a theorem
 about the function generated from the current source.
 -/
+set_option linter.unusedSimpArgs false
 namespace Artap.Tie.Dominance
 open Artap Artap.Gen.Dominance
 
